@@ -1,5 +1,5 @@
 (* Proofs about the concurrent SimpleDB machine (Db/Conc.v). *)
-From Coq Require Import Lia.
+From Coq Require Import Lia String.
 From GoSST Require Import Base.Bytes Db.Logical Db.LogicalFacts Db.Conc.
 From GoSSTGen Require Import FactsCode.
 Local Open Scope N_scope.
@@ -8,7 +8,13 @@ Local Open Scope N_scope.
    of /repo on this run (gen/FactsCode.v) *)
 Lemma lock_facts :
   put_takes_write_lock = true /\ delete_takes_write_lock = true /\ get_takes_read_lock = true /\
-  get_tables_before_memstore = Some true /\ reflect_takes_db_lock_first = Some true.
+  get_tables_before_memstore = Some true /\ reflect_takes_db_lock_first = Some true /\
+  (* the memstore pair is read by Get and written by Put/Delete and recovery only; it is swapped only by a
+     rotation, which only Put and Close (both under the write lock) and recovery (under Open's lock) start:
+     in particular the flusher and the compactor never touch it *)
+  memstore_users = "DeleteBytes,GetBytes,PutBytes,replayAndSetupWriteAheadLog,swapMemstore"%string /\
+  memstore_swappers = "replayAndSetupWriteAheadLog,rotateWalAndFlushMemstore"%string /\
+  memstore_rotators = "Close,PutBytes"%string.
 Proof. repeat split; reflexivity. Qed.
 
 (* what the database reads as *)
